@@ -26,3 +26,30 @@ Fixpoint c16_from (i : Z) (l : list c16) : list Z :=
 Definition c16_failures (l : list c16) : list Z := c16_from 0%Z l.
 Definition c16_out (c : c16) :=
   (to_exp (c16_names c) (c16_expr c), map (fun p => bevalQ (fun i => q_of (nth i (fst p) (Fin 0%Q))) (c16_expr c)) (c16_points c)).
+
+(* ---------- call sequences: the model ModelBuilder::into_model returned after a sequence of public calls
+   (None = add_var panicked on a duplicate name) against Model.BuilderOps *)
+From Rooc Require Import Model.Bounds Model.Linearize Model.BuilderOps Tie.TieC01 Tie.TieC06.
+Record opscase := mkOps { oc_ops : list bop; oc_impl : option (direction * exp * list constr * list (string * vtype * bool)) }.
+Definition dir_eqb (a b : direction) : bool :=
+  match a, b with DMin, DMin | DMax, DMax | DSatisfy, DSatisfy => true | _, _ => false end.
+Fixpoint leq2 {A B} (f : A -> B -> bool) (a : list A) (b : list B) : bool :=
+  match a, b with [], [] => true | x :: xs, y :: ys => f x y && leq2 f xs ys | _, _ => false end.
+Definition check_ops (c : opscase) : bool :=
+  match brun b_init (oc_ops c), oc_impl c with
+  | Some s, Some (d, o, cs, ds) =>
+      let m := into_model s in
+      dir_eqb (m_dir m) d && exp_close (m_obj m) o && list_eqb constr_close (m_constraints m) cs
+      && leq2 (fun (x : string * dvar) (y : string * vtype * bool) =>
+                     String.eqb (fst x) (fst (fst y)) && vtype_close (dv_type (snd x)) (snd (fst y)) && Bool.eqb (dv_used (snd x)) (snd y))
+                  (m_domain m) ds
+  | None, None => true
+  | _, _ => false
+  end.
+Fixpoint ops_from (i : Z) (l : list opscase) : list Z :=
+  match l with
+  | [] => []
+  | c :: cs => if check_ops c then ops_from (i + 1)%Z cs else i :: ops_from (i + 1)%Z cs
+  end.
+Definition ops_failures (l : list opscase) : list Z := ops_from 0%Z l.
+Definition ops_out (c : opscase) := option_map into_model (brun b_init (oc_ops c)).
